@@ -131,24 +131,30 @@ def view(g):
             tuple((c.block[0].name, c.block[1].name) for c in g.connectionlist))
 
 
+def _shallow(o):
+    n = object.__new__(o.__class__)
+    n.__dict__.update(o.__dict__)
+    return n
+
+
 def clone(g):
     """Copy of a WELL-FORMED grid preserving the object graph (used to branch in part A)."""
     h = t2grid()
     rmap, bmap = {}, {}
     for r in g.rocktypelist:
-        r2 = copy.copy(r)
+        r2 = _shallow(r)
         rmap[id(r)] = r2
         h.rocktypelist.append(r2)
         h.rocktype[r2.name] = r2
     for b in g.blocklist:
-        b2 = copy.copy(b)
+        b2 = _shallow(b)
         b2.connection_name = set(b.connection_name)
         b2.rocktype = rmap[id(b.rocktype)]
         bmap[id(b)] = b2
         h.blocklist.append(b2)
         h.block[b2.name] = b2
     for c in g.connectionlist:
-        c2 = copy.copy(c)
+        c2 = _shallow(c)
         c2.block = [bmap[id(b)] for b in c.block]
         c2.distance = list(c.distance)
         h.connectionlist.append(c2)
@@ -443,6 +449,7 @@ class Stats(object):
         self.per_contract = {}
         self.fail = {}       # key -> (len(history), failure dict)
         self.nsteps = 0
+        self.cpu = -time.process_time()     # worker CPU seconds (closed by done())
 
     def count(self, name, n=1):
         self.evaluations += n
@@ -454,8 +461,13 @@ class Stats(object):
         if old is None or old[0] > len(history):
             self.fail[key] = (len(history), {'key': key, 'what': what, 'input': inp})
 
+    def done(self):
+        self.cpu += time.process_time()
+        return self
+
     def merge(self, other):
         self.evaluations += other.evaluations
+        self.cpu += other.cpu
         self.nsteps += other.nsteps
         for k, n in other.per_contract.items():
             self.per_contract[k] = self.per_contract.get(k, 0) + n
@@ -685,7 +697,7 @@ def expand(task):
                 key = (initname, post)
                 if key not in new:
                     new[key] = tuple(history) + (op,)
-    return new, st, npairs
+    return new, st.done(), npairs
 
 
 def real_replays(task):
@@ -696,13 +708,13 @@ def real_replays(task):
     g = raw_grid(*INITIAL[initname])
     g1, v1 = contract_step(g, first, [], initname, st)
     if g1 is None:
-        return st, 1
+        return st.done(), 1
     for op in gen_ops(v1):
         g = raw_grid(*INITIAL[initname])
         g = apply_cont(g, first)
         contract_step(g, op, [first], initname, st, v1)
         n += 1
-    return st, n
+    return st.done(), n
 
 
 def random_small(task):
@@ -733,7 +745,7 @@ def random_small(task):
             vw = post
         if sample is None:
             sample = {'initial': initname, 'history': [opstr(o) for o in history[:8]], 'length': len(history)}
-    return st, nseq, sample
+    return st.done(), nseq, sample
 
 # ----------------------------------------------------------------------------------------------
 # part C: random sequences on grids from geometries
@@ -944,7 +956,7 @@ def random_big(task):
             vw = post
         if sample is None:
             sample = {'geometry': desc, 'history': [opstr(o)[:60] for o in history[:6]], 'length': len(history)}
-    return st, nseq, sample
+    return st.done(), nseq, sample
 
 # ----------------------------------------------------------------------------------------------
 
@@ -957,6 +969,7 @@ def main():
     nproc = min(16, os.cpu_count() or 1)
     depth = 3 if tier == 'quick' else 4
     total = Stats()
+    total.cpu = 0.
     distinct = 0
     samples = []
     levels = []
@@ -1027,7 +1040,7 @@ def main():
                 out.append(bycat[cat][rank])
         rank += 1
     samples.append({'levels': levels, 'real_replays_len2': nb1, 'random_small_sequences': nb2, 'random_geometry_sequences': nc,
-                    'steps': total.nsteps, 'per_contract': total.per_contract,
+                    'steps': total.nsteps, 'worker_cpu_seconds': round(total.cpu, 1), 'per_contract': total.per_contract,
                     'failure_categories': dict((c, len(v)) for c, v in sorted(bycat.items()))})
     print('@@JSON@@' + json.dumps({'evaluations': total.evaluations, 'distinct': distinct, 'failures': out,
                                    'nfailures': len(allf), 'samples': samples, 'seconds': round(time.time() - t0, 2)}))
